@@ -94,13 +94,13 @@ CHECKS["C13"] = dict(
     design="5 C13", technique="Coq proof (sortedness invariant + exactness of the range scan) + differential correspondence + fresh-scan oracle",
     note=WORLD_NOTE)
 CHECKS["C16"] = dict(
-    text="Theorems (Props/C16.v, 41) for reachable states: each of the ten set methods yields the Python set result (KeyError exactly when the built-in raises); every module-list method yields the list "
+    text="Theorems (Props/C16.v, 43) for reachable states: each of the ten set methods yields the Python set result (KeyError exactly when the built-in raises); every module-list method yields the list "
          "result on the list from which a moved module was first removed (ValueError/IndexError exactly when the built-in raises); the expression map refines dict with iteration by offset; moved-not-duplicated; "
          "a failed operation leaves the state (and the invariant) unchanged; the read-only sequence interface (index with bounds, count, in, [i], [a:b:c], reversed) of the module list is "
-         "Python's (Model/SeqOps.v: first position inside the clamped bounds, IndexError exactly outside [-len, len), slice positions s, s+c, ... as slice.indices gives them). Correspondence + lock-step shadows: every call also made on built-in list/set/dict, incl. mixins, operators with plain sets on either "
+         "Python's (Model/SeqOps.v: first position inside the clamped bounds, IndexError exactly outside [-len, len), slice positions s, s+c, ... as slice.indices gives them); the non-mutating set operators and comparisons inherited from collections.abc.Set (Model/SetAlg.v) are the mathematical ones on duplicate-free member lists. Correspondence + lock-step shadows: every call also made on built-in list/set/dict, incl. mixins, operators with plain sets on either "
          "side, explicit-step slices, foreign-kind and non-node arguments, out-of-range indices.",
     design="5 C16", technique="Coq proof (refinement of built-in semantics by effect lemmas) + differential correspondence + built-in shadow oracle",
-    note=WORLD_NOTE + "Non-mutating operators return plain sets since the upstream fix 12e88c6; they are judged by the shadow oracle only. Known finding D4 (same-list item/slice assignment) is stated as C16_same_list_assignment_refused.")
+    note=WORLD_NOTE + "Non-mutating operators return plain sets since the upstream fix 12e88c6; their values are modelled by Model/SetAlg.v (the Set mixins), the result TYPE is judged by the shadow oracle only. Known finding D4 (same-list item/slice assignment) is stated as C16_same_list_assignment_refused.")
 CHECKS["C11"] = dict(
     text="Theorems (Props/C11.v, 21) over Model/Cfg.v (cfg.py as coded: _edge_key, guarded add, keyed discard, the MutableSet mixins transcribed from CPython): every state reachable by any "
          "sequence of operations is a duplicate-free set of (source, target, label) triples; each operation is exactly the mathematical set operation and fails exactly when the built-in set would; "
